@@ -57,7 +57,7 @@ func newDecls() *Decls {
 	d.raw("sort.Unit", "(declare-datatypes ((Unit 0)) (((unit))))")
 	d.raw("sort.Iface", "(declare-datatypes ((Iface 0)) (((inil) (ibox (itag Int) (ival Int)))))")
 	d.raw("fun.strlen", "(declare-fun strlen (Str) Int)")
-	d.raw("fun.concat", "(declare-fun concat (Str Str) Str)")
+	d.raw("fun.concat", "(declare-fun strconcat (Str Str) Str)")
 	d.raw("fun.live0", "(declare-fun live0 (Int) Bool)")
 	d.raw("ax.strlen", "(assert (forall ((s Str)) (! (>= (strlen s) 0) :pattern ((strlen s)))))")
 	return d
